@@ -107,6 +107,22 @@ Proof.
 Qed.
 Print Assumptions C17_cache_coherent.
 
+(* drape model: a well-formed model (prism p owns layers [first, first+count), in order, no gap) has one centre per layer *)
+Theorem C17_drape_n_centroids : forall prisms bottoms,
+  drape_wf 0 prisms -> drape_total prisms = length bottoms ->
+  exists l, drape_centroids prisms bottoms = Ok l /\ length l = length bottoms.
+Proof. exact drape_n_centroids. Qed.
+Print Assumptions C17_drape_n_centroids.
+
+Example C17_drape_nonvacuous :
+  let prisms := [ {| px := 0; py := 0; ptop := 0; pfirst := 0; pcount := 2 |};
+                  {| px := 1; py := 0; ptop := 1 # 2; pfirst := 2; pcount := 3 |} ]%Q in
+  let bottoms := [ -1; -2; (-3) # 2; -3; -4 ]%Q in
+  drape_wf 0 prisms /\ drape_total prisms = length bottoms
+  /\ drape_agree prisms bottoms
+       (Ok [ (0, 0, (-1) # 2); (0, 0, (-3) # 2); (1, 0, (-1) # 2); (1, 0, (-9) # 4); (1, 0, (-7) # 2) ]%Q) = true.
+Proof. simpl. repeat split; try lia. Qed.
+
 (* ------------------------------------------------------------------ octree *)
 (* the default octree tiles the 2^eu x 2^ev x 2^ew base grid exactly once: every base cell (a, b, d) is covered by the
    cell at exactly one position of the cell list — for ALL exponents (unbounded) *)
